@@ -656,6 +656,24 @@ impl Kanata {
         }
 
         *MAPPED_KEYS.lock() = cfg.mapped_keys;
+        // The new layout knows nothing about what was active in the old one: drop the run-time
+        // state that refers to it, as a restart would.
+        self.scroll_state = None;
+        self.hscroll_state = None;
+        self.move_mouse_state_vertical = None;
+        self.move_mouse_state_horizontal = None;
+        self.move_mouse_speed_modifiers.clear();
+        self.movemouse_buffer = None;
+        self.unmodded_keys.clear();
+        self.unmodded_mods = UnmodMods::empty();
+        self.unshifted_keys.clear();
+        self.last_pressed_key = KeyCode::No;
+        self.caps_word = None;
+        self.sequence_state = SequenceState::new();
+        self.waiting_for_idle.clear();
+        self.vkeys_pending_release.clear();
+        self.dynamic_macro_replay_state = None;
+        self.dynamic_macro_record_state = None;
         log::info!("Live reload successful");
         #[cfg(feature = "tcp_server")]
         if let Some(tx) = _tx {
